@@ -183,7 +183,7 @@ def gen_c14_lattice(rnd, tier):
     for _ in range(n):
         vpos, faces = _lattice_scene(rnd)
         out.append({'op': 'reset'})
-        out.append(_root(rnd, 'lattice', vpos, faces, rnd.choice((0, -10, -3, 4, 7))))
+        out.append(_root(rnd, 'lattice', vpos, faces, rnd.choice((0, -10, -3, 4, 7, -20, 12))))
         prev = None
         for _s in range(rnd.randint(1, 5)):
             crit = _lattice_crit(rnd)
